@@ -36,6 +36,9 @@ def main():
             out=r.stdout
             hit=[l for l in out.split('\n') if l.startswith('VIOLATION') and ('obligation='+obl) in l]
             allv=[l for l in out.split('\n') if l.startswith('VIOLATION')]
+            if os.environ.get('SELFTEST_LOG'):
+                with open(os.environ['SELFTEST_LOG'],'a') as f:
+                    for l in allv: f.write(name+'\t'+l+'\n')
             if hit:
                 print('ok   %-45s -> %s'%(name, re.search(r'obligation=(\S+)',hit[0]).group(1)))
             else:
